@@ -7,7 +7,7 @@
      dup_at / bad_at  : src = pre ++ (o,v) :: post, pre is fine, (o,v) is the first duplicate / first refused pair
      accepted o src   : parser results of the occurrences of o in src, in order (parser applied to the implicit
                         value where the string is empty and the option has an implicit value)                       *)
-Require Import V.Lib.Base V.Gen.Consts_C15 V.C15.Model V.C15.Spec V.C15.Proofs V.C15.Proofs2 V.C15.Proofs3 V.C15.Proofs4.
+Require Import V.Lib.Base V.Gen.Consts_C15 V.C15.Model V.C15.Spec V.C15.Proofs V.C15.Proofs2 V.C15.Proofs3 V.C15.Proofs4 V.C15.Proofs5.
 Local Open Scope Z_scope.
 
 (* no exception  <->  the source has neither a duplicate nor a refused pair *)
@@ -428,4 +428,166 @@ Example c15_ex_runs_case :
   run_case [1; 5; 0; 0; 0; 1; 0; 1; 0; 1; 51; 6; 1; 0; 1; 0; 1; 55] = [0; 0; 1; 0; 1; 1; 3; 0; 0; 1; 0; 1; 1; 7] /\
   run_case [1; 5; 0; 0; 1; 1; 49; 1; 0; 1; 0; 1; 51; 6; 2] = [0; 0; 1; 0; 1; 1; 3; 0; 0; 0; VALUE_DEFAULTED; 0; 1; 1] /\
   run_case [1; 9; 1; 0; 0; 1; 0; 2; 0; 1; 49; 0; 1; 50; 6; 1; 0; 1; 0; 1; 57] = [0; 0; 1; 0; 1; 2; 1; 2; 0; 0; 1; 0; 1; 1; 9].
+Proof. vm_compute. repeat split; reflexivity. Qed.
+
+(* ---------------- typed NOTIFIED values: the notification function's answer selects OWNERSHIP, not validity ----------------
+   notify<T>(obj, fn, parser) / flag(obj, fn, action) / store<T>(map): NotifiedValue<T>::doParse lets the option's PARSER fill an object (a
+   newly created one, or - once an object was kept - that object, in place), calls fn with it iff the parser accepted the string, and
+   returns the PARSER's verdict.  fn's return value only says who owns a newly created object: true = the notified context keeps it,
+   false = the context copied what it needs and the library deletes it.  Model: the option's variable is the notified context's view,
+   Model.nstate (n_log = every delivered object in order, n_held = the object the context owns, n_loc = the value parses in place, n_made /
+   n_freed / n_cfreed = objects created / deleted by the library / deleted by the context), store = n_store answer, fail_write = n_fail,
+   and the parser of the assignment model is the option's typed parser - [answer] occurs in n_store only.
+   All theorems: every option set, typed parser, object model (create / apply / dirt), answer function (it may depend on the option,
+   on everything delivered so far and on the delivered object), history of sources WITH OR WITHOUT errors, parsed set, exclude sets. *)
+
+(* Two notification functions - e.g. one that keeps every object and one that declines every object - over the same option set and the
+   same history of sources followed by assignDefaults: the same error (or none) for every source, the same names recorded as parsed, the
+   same value states and the same accepted parser results for every option after the sources and after the defaults (with c15_first_wins /
+   c15_composing / c15_defaults, which hold for ANY store: the same winning occurrence, the same defaults applied), the same error of
+   assignDefaults, and the same NUMBER of notifications per option.  Acceptance, recording, first-source-wins and default application are
+   independent of the function's answer. *)
+Theorem c15_notifier_answer_selects_ownership_only :
+  forall (val obj : Type) (odesc : nat -> opt) (parser : nat -> str -> option val)
+         (create : nat -> obj) (apply : nat -> val -> obj -> obj) (dirt : nat -> str -> obj -> obj)
+         (answer1 answer2 : nat -> list obj -> obj -> bool)
+         (h : list (option (list nat) * list (nat * str))) (n : nat) (parsed : list nat)
+         (cs1 cs2 : nat -> @cell val (nstate obj))
+         (es1 : list (option err)) (p1 : list nat) (c1 : nat -> @cell val (nstate obj)) (f1 : bool) (e1 : option err) (d1 : nat -> @cell val (nstate obj))
+         (es2 : list (option err)) (p2 : list nat) (c2 : nat -> @cell val (nstate obj)) (f2 : bool) (e2 : option err) (d2 : nat -> @cell val (nstate obj)),
+    agree val (nstate obj) (nstate obj) cs1 cs2 ->
+    run_sources val (nstate obj) odesc parser (n_store val obj create apply answer1) (n_fail obj dirt) parsed cs1 h = (es1, p1, c1, f1) ->
+    assign_defaults val (nstate obj) odesc parser (n_store val obj create apply answer1) (n_fail obj dirt) p1 c1 (seq 0 n) = (e1, d1) ->
+    run_sources val (nstate obj) odesc parser (n_store val obj create apply answer2) (n_fail obj dirt) parsed cs2 h = (es2, p2, c2, f2) ->
+    assign_defaults val (nstate obj) odesc parser (n_store val obj create apply answer2) (n_fail obj dirt) p2 c2 (seq 0 n) = (e2, d2) ->
+    es1 = es2 /\ p1 = p2 /\ f1 = f2 /\ agree val (nstate obj) (nstate obj) c1 c2 /\
+    e1 = e2 /\ agree val (nstate obj) (nstate obj) d1 d2 /\
+    (forall o, length (n_log (c_var (d1 o))) + length (n_log (c_var (cs2 o))) =
+               length (n_log (c_var (d2 o))) + length (n_log (c_var (cs1 o))))%nat.
+Proof.
+  intros val obj odesc parser create apply dirt answer1 answer2 h n parsed cs1 cs2 es1 p1 c1 f1 e1 d1 es2 p2 c2 f2 e2 d2.
+  exact (answer_indep val obj odesc parser create apply dirt answer1 answer2 h (seq 0 n) parsed cs1 cs2 es1 p1 c1 f1 e1 d1 es2 p2 c2 f2 e2 d2).
+Qed.
+Print Assumptions c15_notifier_answer_selects_ownership_only.
+
+(* The notification function is called exactly once per accepted occurrence, in order, with the object the accepted string was parsed
+   into: across ANY history of sources followed by assignDefaults (errors allowed anywhere) the accepted parser results of every option
+   grew by some list xs and the log of delivered objects by a list obs with  Forall2 (fun x ob => exists pv, ob = apply o x pv) xs obs
+   (same length, same order; a refused string is never delivered).  Which xs: c15_recorded / c15_first_wins / c15_composing / c15_defaults. *)
+Theorem c15_notifier_called_once_per_accepted_value :
+  forall (val obj : Type) (odesc : nat -> opt) (parser : nat -> str -> option val)
+         (create : nat -> obj) (apply : nat -> val -> obj -> obj) (dirt : nat -> str -> obj -> obj)
+         (answer : nat -> list obj -> obj -> bool)
+         (h : list (option (list nat) * list (nat * str))) (n : nat) (parsed : list nat) (cs : nat -> @cell val (nstate obj))
+         (es : list (option err)) (p : list nat) (c1 : nat -> @cell val (nstate obj)) (f : bool) (e : option err) (d : nat -> @cell val (nstate obj)),
+    run_sources val (nstate obj) odesc parser (n_store val obj create apply answer) (n_fail obj dirt) parsed cs h = (es, p, c1, f) ->
+    assign_defaults val (nstate obj) odesc parser (n_store val obj create apply answer) (n_fail obj dirt) p c1 (seq 0 n) = (e, d) ->
+    forall o, exists xs obs,
+      c_vals (d o) = c_vals (cs o) ++ xs /\ n_log (c_var (d o)) = n_log (c_var (cs o)) ++ obs /\
+      Forall2 (fun x ob => exists pv, ob = apply o x pv) xs obs.
+Proof.
+  intros val obj odesc parser create apply dirt answer h n parsed cs es p c1 f e d Hr Hd o.
+  exact (proj1 (notified_history val obj odesc parser create apply dirt answer h parsed cs es p c1 f (seq 0 n) e d Hr Hd o)).
+Qed.
+Print Assumptions c15_notifier_called_once_per_accepted_value.
+
+(* Objects: (1) for ANY answer function the bookkeeping stays balanced - every object the library created for the option was deleted
+   exactly once (by the library: declined, or its string was refused; by the context: replaced by a newer object) or is the ONE object
+   the context owns, and a value that parses in place has handed its object over;
+   (2) a function that always declines, starting from a context that owns nothing: every accepted result x was delivered as a NEW object
+   holding exactly x (apply o x (create o)), the context still owns nothing, the value still has no location, and made - freed did not
+   change: each declined object (and each object of a refused string) was deleted by the library, exactly once. *)
+Theorem c15_notified_objects_accounted :
+  forall (val obj : Type) (odesc : nat -> opt) (parser : nat -> str -> option val)
+         (create : nat -> obj) (apply : nat -> val -> obj -> obj) (dirt : nat -> str -> obj -> obj)
+         (answer : nat -> list obj -> obj -> bool)
+         (h : list (option (list nat) * list (nat * str))) (n : nat) (parsed : list nat) (cs : nat -> @cell val (nstate obj))
+         (es : list (option err)) (p : list nat) (c1 : nat -> @cell val (nstate obj)) (f : bool) (e : option err) (d : nat -> @cell val (nstate obj)),
+    run_sources val (nstate obj) odesc parser (n_store val obj create apply answer) (n_fail obj dirt) parsed cs h = (es, p, c1, f) ->
+    assign_defaults val (nstate obj) odesc parser (n_store val obj create apply answer) (n_fail obj dirt) p c1 (seq 0 n) = (e, d) ->
+    forall o,
+      (accounted obj (c_var (cs o)) -> accounted obj (c_var (d o))) /\
+      ((forall l ob, answer o l ob = false) -> owns_nothing obj (c_var (cs o)) ->
+       exists xs, c_vals (d o) = c_vals (cs o) ++ xs /\
+                  n_log (c_var (d o)) = n_log (c_var (cs o)) ++ map (fun x => apply o x (create o)) xs /\
+                  owns_nothing obj (c_var (d o)) /\
+                  n_made (c_var (d o)) - n_freed (c_var (d o)) = n_made (c_var (cs o)) - n_freed (c_var (cs o)) /\
+                  n_cfreed (c_var (d o)) = n_cfreed (c_var (cs o))).
+Proof.
+  intros val obj odesc parser create apply dirt answer h n parsed cs es p c1 f e d Hr Hd o.
+  exact (proj2 (notified_history val obj odesc parser create apply dirt answer h parsed cs es p c1 f (seq 0 n) e d Hr Hd o)).
+Qed.
+Print Assumptions c15_notified_objects_accounted.
+
+(* The contrast, for ONE occurrence (o, v) that is not ignored.
+   TYPED notifier: if the option's parser accepts the (effective) string, the source is assigned without error, o is recorded as parsed,
+   back in state unassigned, received exactly that parser result, and the function was called once with it - WHATEVER it answers. *)
+Theorem c15_declined_value_is_accepted :
+  forall (val obj : Type) (odesc : nat -> opt) (parser : nat -> str -> option val)
+         (create : nat -> obj) (apply : nat -> val -> obj -> obj) (dirt : nat -> str -> obj -> obj)
+         (answer : nat -> list obj -> obj -> bool)
+         (parsed : list nat) (excl : option (list nat)) (cs : nat -> @cell val (nstate obj)) (o : nat) (v : str) (x : val),
+    (forall j, clean val (nstate obj) (cs j)) -> skipped odesc parsed excl o = false -> parser o (eff odesc o v) = Some x ->
+    exists p' cs' pv,
+      assign_source val (nstate obj) odesc parser (n_store val obj create apply answer) (n_fail obj dirt) parsed excl cs [(o, v)] = (None, p', cs', false) /\
+      mem o p' = true /\ c_state (cs' o) = VALUE_UNASSIGNED /\ c_vals (cs' o) = c_vals (cs o) ++ [x] /\
+      n_log (c_var (cs' o)) = n_log (c_var (cs o)) ++ [apply o x pv] /\ (forall j, j <> o -> cs' j = cs j).
+Proof. exact notified_accepts. Qed.
+Print Assumptions c15_declined_value_is_accepted.
+
+(* UNTYPED custom value (notify(obj, fn) with fn(obj, name, const std::string&); CustomValue::doParse = fn's answer; parser =
+   Model.custom_parser cb): here the callback's answer IS the validity - true: no error and o is recorded; false:
+   ValueError(invalid_value, o, v), nothing recorded, nothing received. *)
+Theorem c15_custom_answer_is_validity :
+  forall (var : Type) (odesc : nat -> opt) (cb : nat -> str -> bool)
+         (store : nat -> str -> var -> var) (fail_write : nat -> str -> var -> var)
+         (parsed : list nat) (excl : option (list nat)) (cs : nat -> @cell str var) (o : nat) (v : str),
+    (forall j, clean str var (cs j)) -> skipped odesc parsed excl o = false ->
+    let r := assign_source str var odesc (custom_parser cb) store fail_write parsed excl cs [(o, v)] in
+    (cb o (eff odesc o v) = true -> err_of str var r = None /\ mem o (snd (fst (fst r))) = true) /\
+    (cb o (eff odesc o v) = false ->
+     err_of str var r = Some (mkErr ERR_INVALID_VALUE o v) /\ snd (fst (fst r)) = parsed /\ c_vals (snd (fst r) o) = c_vals (cs o)).
+Proof. exact custom_answer_is_validity. Qed.
+Print Assumptions c15_custom_answer_is_validity.
+
+(* non-vacuity.  o0 = notify<int> with default "1", o1 = std::string with default "anon" (the harness' kinds 10 / 14 over the int parser):
+   sources [o0=3] then [o0=7 o1=bob], then assignDefaults - with a function that declines every object and with one that keeps every
+   object.  All hypotheses hold (initial cells agree, are clean, accounted, own nothing); both runs: no error, both options recorded,
+   o0 received exactly [3] (first source wins, default not applied), ONE notification with [3]; declining: 1 object made, 1 deleted by
+   the library, nothing held; keeping: 1 made, none deleted, the context holds [3]. *)
+Definition ex_nopts : list copt := [mkC 10 (mkOpt false None (Some [49])); mkC 3 (mkOpt false None (Some [97; 110; 111; 110]))].
+Definition ex_ninit : nat -> @cell (list Z) (nstate (list Z)) := fun _ => mkCell VALUE_UNASSIGNED [] (mkN false None [] 0 0 0).
+Definition ex_nhist : list (option (list nat) * list (nat * str)) :=
+  [(None, [(0%nat, [51])]); (None, [(0%nat, [55]); (1%nat, [98; 111; 98])])].
+Definition ex_nrun (ans : bool) :=
+  let S := n_store (list Z) (list Z) (fun o => k_create (kind_of ex_nopts o)) (fun o => k_store0 (k_base (kind_of ex_nopts o))) (fun _ _ _ => ans) in
+  let F := n_fail (list Z) (fun o => k_fail0 (k_base (kind_of ex_nopts o))) in
+  let '(es, p, c1, f) := run_sources (list Z) _ (desc_of ex_nopts) (c_parser ex_nopts) S F [] ex_ninit ex_nhist in
+  let '(e, d) := assign_defaults (list Z) _ (desc_of ex_nopts) (c_parser ex_nopts) S F p c1 (seq 0 2) in
+  (es, e, map (fun o => mem o p) [0; 1]%nat, c_state (d 0%nat), c_vals (d 0%nat), c_var (d 0%nat)).
+Example c15_ex_notifier_answers :
+  agree (list Z) _ _ ex_ninit ex_ninit /\ (forall j, clean (list Z) _ (ex_ninit j)) /\
+  (forall j, accounted (list Z) (c_var (ex_ninit j)) /\ owns_nothing (list Z) (c_var (ex_ninit j))) /\
+  ex_nrun false = ([None; None], None, [true; true], VALUE_UNASSIGNED, [[3]], mkN false None [[3]] 1 1 0) /\
+  ex_nrun true = ([None; None], None, [true; true], VALUE_UNASSIGNED, [[3]], mkN true (Some [3]) [[3]] 1 0 0).
+Proof.
+  split; [intros o; split; reflexivity|]. split; [intros j; left; reflexivity|].
+  split; [intros j; repeat split; try reflexivity; discriminate|].
+  vm_compute. split; reflexivity.
+Qed.
+
+(* the same through run_case (what the harness prints; var = made libFreed ctxFreed held clen content.. log..):
+   [o0 = notify<int> DECLINES, default '1'] assign(o0='3') -> assign(o0='7') -> defaults: after every step no error, 1 name recorded, state
+   unassigned, 1 object made and deleted by the library, log = [3];   the same option with a function that KEEPS: the context holds [3];
+   [o0 = notify<vector<int>> declines, composing] assign(o0='1,2', o0='9'): two new objects [1,2] and [9];  keeping: [1,2] then [1,2,9] in place;
+   the untyped custom notifier (kind 6) next to a declining int: [o0=5 o1='!x']: o1's answer false IS an error (invalid_value o1 '!x') *)
+Example c15_ex_notifier_cases :
+  run_case [1; 10; 0; 0; 1; 1; 49; 1; 0; 1; 0; 1; 51; 1; 0; 1; 0; 1; 55; 2] =
+    [0; 0; 1; 0; 1; 7; 1; 1; 0; 0; 0; 1; 3;  0; 0; 1; 0; 1; 7; 1; 1; 0; 0; 0; 1; 3;  0; 0; 1; 0; 1; 7; 1; 1; 0; 0; 0; 1; 3] /\
+  run_case [1; 14; 0; 0; 1; 1; 49; 1; 0; 1; 0; 1; 51; 1; 0; 1; 0; 1; 55; 2] =
+    [0; 0; 1; 0; 1; 8; 1; 0; 0; 1; 1; 3; 1; 3;  0; 0; 1; 0; 1; 8; 1; 0; 0; 1; 1; 3; 1; 3;  0; 0; 1; 0; 1; 8; 1; 0; 0; 1; 1; 3; 1; 3] /\
+  run_case [1; 13; 1; 0; 0; 1; 0; 2; 0; 3; 49; 44; 50; 0; 1; 57] = [0; 0; 1; 0; 1; 10; 2; 2; 0; 0; 0; 2; 1; 2; 1; 9] /\
+  run_case [1; 17; 1; 0; 0; 1; 0; 2; 0; 3; 49; 44; 50; 0; 1; 57] = [0; 0; 1; 0; 1; 15; 1; 0; 0; 1; 3; 1; 2; 9; 2; 1; 2; 3; 1; 2; 9] /\
+  run_case [2; 10; 0; 0; 1; 1; 57; 6; 0; 0; 0; 1; 0; 2; 0; 1; 53; 1; 2; 33; 120] =
+    [1 + ERR_INVALID_VALUE; 1; 2; 33; 120; 0; 1; 0; 1; 7; 1; 1; 0; 0; 0; 1; 5; 0; 0; 0].
 Proof. vm_compute. repeat split; reflexivity. Qed.
